@@ -367,6 +367,8 @@ def _commutes_rules(ctx, repo):
     _trace_distance_rules(ctx, repo)
     _phase_by_rules(ctx, repo)
     _phased_xz_canonical(ctx, repo)
+    period_soundness_rule(ctx, 'C08.o')
+    ctx.decided.append('C08.o exponent periods used for canonicalisation are multiples of every eigenphase period (PhasedXPowGate._period and the EigenGate helper, interpreted on a rational grid of shifts)')
     _mutable_equality_cache(ctx, repo)
     _qudit_shortcuts(ctx, repo)
     ctx.decided.append('C08.i no statement discards the result of a value-semantics method (inverse / then / with_* / replace ...): `t.inverse()` without rebinding is a no-op')
@@ -735,3 +737,57 @@ def _qudit_shortcuts(ctx, repo):
                    f'{ci.name}.{fn.name} returns {sorted(set(built))} - qubit gates - without looking at self._dimension: for dimension 3 the result acts on the wrong space', ci.mod.rel, fn.lineno)
     if n == 0:
         raise AnalysisError('C08.n: no qudit-capable class with a gate-building method found')
+
+
+# ---------------------------------------------------------------------------------------------------------------------
+# C08.o  Exponents are canonicalised modulo `_period()` before two gates are compared.  A value p is a period only if every
+# eigenphase exp(i pi t (e + s)) returns to itself when t grows by p, i.e. p (e + s) / 2 is an integer for every eigen shift e.
+def period_soundness_rule(ctx, rid='C08.o'):
+    from fractions import Fraction
+    from . import c03
+    repo = ctx.repo
+    ctx.rule(rid, 'a period is a period: interpreting PhasedXPowGate._period for global shifts s on a rational grid, and eigen_gate._approximate_common_period on the '
+             'period lists {2/|e+s|} of model eigen-shift sets, a returned p (not None) makes p(e+s)/2 an integer for every eigen shift e - otherwise `exponent % p` identifies gates '
+             'with different matrices (equality, hashing, dedup and JSON keys rest on it)', floor=150, style='FDX')
+    shifts = sorted({Fraction(a, b) for b in (1, 2, 3, 4, 5, 6, 8) for a in range(-3 * b, 3 * b + 1)})
+    ci = repo.cls('cirq.ops.phased_x_gate.PhasedXPowGate')
+    fn = ci.methods.get('_period')
+    if fn is None:
+        raise AnalysisError('PhasedXPowGate._period vanished')
+
+    def sound(p, exps):
+        return all(abs(p * e / 2 - round(p * e / 2)) < 1e-7 for e in exps if e != 0)
+    for s in shifts:
+        it = fdx.NumInterp({'self': {'_global_shift': float(s), 'global_shift': float(s)}})
+        it.resolver = c03.make_resolver(repo, ci.mod, fn)
+        try:
+            p = it.call(fn)
+        except (fdx.Unsupported, fdx.Raised) as ex:
+            raise AnalysisError(f'PhasedXPowGate._period is outside the interpretable subset: {ex}')
+        exps = [float(s), 1 + float(s)]
+        ok = p is None or (p > 0 and sound(float(p), exps))
+        ctx.ob(rid, f'{ci.qual}._period:s={s}', ok, '' if ok else
+               f'global_shift={s}: _period() returns {p}, but the eigenphases advance by {exps} half turns per unit exponent: exponent and exponent+{p} are different matrices that compare equal',
+               ci.mod.rel, fn.lineno, construct=f'{ci.qual}._period')
+    # the helper every other EigenGate goes through
+    em = repo.module('cirq-core/cirq/ops/eigen_gate.py')
+    hf = em.defs.get('_approximate_common_period')
+    if not isinstance(hf, ast.FunctionDef):
+        raise AnalysisError('eigen_gate._approximate_common_period vanished')
+    shift_sets = [(0, 1), (0, 0.5), (0, 1, 0.5), (0, 1, -0.5), (0, 0.25, 0.5), (0, 2), (-0.5, 0.5), (0, 1, 2), (0, 1 / 3, 2 / 3)]
+    for es in shift_sets:
+        for s in [x for x in shifts if x.denominator in (1, 2, 3, 4, 6)]:
+            exps = sorted({e + float(s) for e in es})
+            periods = [abs(2 / e) for e in exps if e != 0]
+            if not periods:
+                continue
+            it = fdx.NumInterp({'periods': list(periods), 'approx_denom': 60, 'reject_atol': 1e-8})
+            it.resolver = c03.make_resolver(repo, em, hf)
+            try:
+                p = it.call(hf)
+            except (fdx.Unsupported, fdx.Raised) as ex:
+                raise AnalysisError(f'_approximate_common_period is outside the interpretable subset: {ex}')
+            ok = p is None or (p > 0 and sound(float(p), exps))
+            ctx.ob(rid, f'cirq.ops.eigen_gate._approximate_common_period:shifts={es}:s={s}', ok, '' if ok else
+                   f'eigen shifts {es} with global_shift={s}: the common period of {[round(x, 4) for x in periods]} is reported as {p}, which is not a multiple of each',
+                   em.rel, hf.lineno, construct='cirq.ops.eigen_gate._approximate_common_period')
